@@ -18,7 +18,10 @@
                 op = (0 vkind fields...) encode that value and keep the bytes | (1 j) decode slot j
                 vkind 1..5 as above, fields as in the decode output
                 -> (((class length)...) per Enc op, (decoded...) per Dec op), decoded = (0 fields...) | (1) | (2);
-                   point decompression answers are the points of the encoded Round2 values *)
+                   point decompression answers are the points of the encoded Round2 values
+     kind 8: (8 ((L0 L1)...) (label...))  the output-decoding step of EvaluatorRound4: the Round3 output
+                hints and the labels the evaluator holds on the output wires
+                -> (1) error (a label that is neither hint of its wire, on ANY wire) | (0 (digest byte...)) *)
 From Coq Require Import ZArith NArith List Bool.
 From Mpc Require Import Gen.Consts Base.Sx Base.Codec IO.Sha2pcCodec.
 Import ListNotations.
@@ -163,6 +166,13 @@ Definition run_c18 (inp : sx) : sx :=
   else if Z.eqb kind 6 then
     let by_ := bitsToBytesLittle (getLB (nthx 1 inp)) in
     SL [ofLN by_; ofLB (bytesToBitsLittle by_)]
+  else if Z.eqb kind 8 then
+    let hints := map (fun p => (getN (nthx 0 p), getN (nthx 1 p))) (getL (nthx 1 inp)) in
+    match (_ <- guard (length hints =? outputHintCount)%nat ;; decode_outputs hints (getLN (nthx 2 inp))) with
+    | Ok bits => SL [SZ 0; ofLN (bitsToBytesLittle bits)]
+    | Err => SL [SZ 1]
+    | Panic => SL [SZ 2]
+    end
   else if Z.eqb kind 7 then
     run_history_obs (curve_of_Z (getZ (nthx 1 inp))) (map hop_of_sx (getL (nthx 2 inp)))
   else
